@@ -20,7 +20,8 @@ class Message:
     def _check_args(self):
         if any(type(arg)(' ') in arg in arg for arg in self.args[:-1] if isinstance(arg, str)):
             raise Error('Space can only appear in the very last arg')
-        if any(type(arg)('\n') in arg for arg in self.args if isinstance(arg, str)):
+        fields = [str(self.command)] + ([self.prefix] if self.prefix is not None else [])
+        if any(c in arg for arg in fields + self.args if isinstance(arg, str) for c in '\r\n'):
             raise Error('No newline allowed')
 
     @staticmethod
